@@ -252,6 +252,13 @@ class LevyKhintchine(Lemma):
         # direct simulation of the Levy model itself: x0 + process_drift t + sigma W + the (uncompensated / compensated as
         # declared) jumps must have the mean rate of the exponent, i.e. the stated simulation drift is the declared drift
         vc.check_zero(nm + "::simulation-drift-of-the-levy-model-is-the-declared-drift", lambda: zero_form(to_sp(vc.method(model, "process_drift")) - to_sp(trip.fields["a"])), samp0)
+        # the exponent describes the model, not the representation its triplet currently sits in: after a change of
+        # representation of the model's own triplet the exponent is the same function (finite-activity models)
+        if case in ("BlackScholes", "HEM", "Merton"):
+            R = vc.enum(LMX + "levymodel:LevyRepresentation", "CENTER" if rep_name != "CENTER" else "ZERO")
+            vc.method(trip, "set_representation", R)
+            psi_after = to_sp(vc.method(model, "levy_exponent", SpVal(x)))
+            vc.check_zero(nm + "::exponent-unchanged-by-a-representation-change-of-the-model's-triplet", lambda: zero_form(psi_after - psi), samp)
         # second derivative along the imaginary axis x = i s (0 < s small): e^{ixz} = e^{-sz} is a real Laplace kernel the CAS
         # integrates in closed form; both sides are analytic in x on the strip where the exponential moments exist, so the
         # identity on that segment is the identity for every x (identity theorem, A6)
@@ -314,6 +321,13 @@ def native_lk_replay(case, clause=""):
         return 1j * x * a0 - 0.5 * (sg * x) ** 2 + tot
     ex = lambda x: complex(m.levy_exponent(x))
     info = {"model": repr(m), "declared_representation": rep, "declared_drift": float(a0)}
+    if "representation-change" in clause:
+        from rpylib.model.levymodel.levymodel import LevyRepresentation as LR
+        xs = (0.7, -1.3, 2.1)
+        before = [ex(x) for x in xs]
+        trip.set_representation(LR.CENTER if rep != "CENTER" else LR.ZERO)
+        after = [ex(x) for x in xs]
+        return (not np.allclose(before, after, rtol=1e-12, atol=1e-14), {**info, "x": list(xs), "exponent_before": [[v.real, v.imag] for v in before], "exponent_after_set_representation": [[v.real, v.imag] for v in after]})
     if "simulation-drift" in clause:
         pdv = float(m.process_drift())
         return (abs(pdv - float(trip.a)) > 1e-12, {**info, "process_drift": pdv})
